@@ -23,7 +23,7 @@ type C06Case struct {
 	Gen   string `json:"gen"`
 }
 
-var c06Entries = []string{"tokenize", "tokenize", "tokenize", "stylesheet", "stylesheet", "rulelist", "decllist", "decllist", "blocks", "blocks", "onedecl", "onevalue"}
+var c06Entries = []string{"tokenize", "tokenize", "tokenize", "stylesheet", "stylesheet", "rulelist", "decllist", "decllist", "blocks", "blocks", "onedecl", "onevalue", "nth"}
 
 func c06Gen(t *rapid.T, tier Tier) interface{} {
 	c := &C06Case{}
@@ -42,6 +42,8 @@ func c06Gen(t *rapid.T, tier Tier) interface{} {
 		default:
 			c.Src, c.Gen = gen.CSSText(t)
 		}
+	case "nth":
+		c.Src, c.Gen = c06NthGen(t), "an+b"
 	default:
 		c.Src, c.Gen = gen.CSSText(t)
 	}
@@ -265,6 +267,23 @@ func c06Check(ci interface{}) Verdict {
 			// position of the error is not compared
 			have[0].Line, have[0].Col = it.Line, it.Col
 		}
+	case "nth":
+		// (comments are no tokens: the callers of ParseNth hand it lists read without them)
+		wantNC := ref.Tokenize(c.Src, true)
+		a, b, ok := c06RefNth(wantNC)
+		g := parser.ParseNth(parser.Tokenize([]byte(c.Src), true))
+		if ok {
+			labels["an+b:valid"] = true
+		}
+		switch {
+		case ok && g == nil:
+			return mk(Viol("nth:rejects", "ParseNth(%q) returned nil, the An+B grammar reads a=%d b=%d", c.Src, a, b))
+		case !ok && g != nil:
+			return mk(Viol("nth:accepts", "ParseNth(%q) returned %v, the text is no <an+b>", c.Src, *g))
+		case ok && (g[0] != a || g[1] != b):
+			return mk(Viol("nth:value", "ParseNth(%q) returned %v, the An+B grammar reads a=%d b=%d", c.Src, *g, a, b))
+		}
+		return mk(Verdict{NonTrivial: len(strings.TrimSpace(c.Src)) > 1})
 	case "onevalue":
 		v, ok := ref.OneComponentValue(want)
 		g := parser.ParseOneComponentValue(parser.Tokenize([]byte(c.Src), c.Skip))
